@@ -203,6 +203,10 @@ type Lifetime struct {
 	// flipped byte, a half-written entry appended, the last terminator lost, emptied).
 	// The file is no longer predicted; only the narrow oracles apply to it. 0 = nothing.
 	PreCorrupt int `json:"precorrupt,omitempty"`
+	// PreEdit: before this lifetime starts, the driver makes a harmless hand edit to one
+	// multi-entry snapshot file: extra blank lines between (or before) its entries. The
+	// file stays predicted - the library ignores such lines. 0 = nothing.
+	PreEdit int `json:"preedit,omitempty"`
 	// FreshCfg: build a new Config from the same options for every call
 	// (differential oracle of property C12).
 	FreshCfg bool `json:"freshcfg,omitempty"`
